@@ -32,6 +32,11 @@ CLAIMED = {
          "Generated-input search with a grammar-based oracle; the generator constructs addresses (no rejection sampling) and knows the expected mailbox without asking net/mail. Sampled, not exhaustive.",
          "A HELO name that is a single token but not a syntactically valid domain is not judged (not smuggling); UTF-8 local parts are accepted regardless of SMTPUTF8; an abandoned transaction (no DATA) counts as a refusal.",
          "DESIGN.md section 3, C05"),
+ "C06": ("exploration",
+         "model-based testing: rapid-generated sequences of address-setting calls executed against Msg and against a reference model of the To/Cc/Bcc/From/EnvelopeFrom/ReplyTo lists, followed by render (own RFC 5322 reader, Bcc-token search in raw and decoded bytes) and send (MAIL/RCPT lines at the reference server)",
+         "Generated call histories against an explicit reference model; sampled by rapid.",
+         "For *IgnoreInvalid the model only demands a subsequence of the valid inputs that contains every valid ASCII-named input (what happens to valid non-ASCII names is not fixed by the property) and follows the getter there.",
+         "DESIGN.md section 3, C06"),
  "C11": ("exploration",
          "rapid-generated message programs x generated histories of render operations (WriteTo, Write, NewReader, UpdateReader, WriteToFile, WriteToTempFile, failed renders by sink or producer fault); metamorphic oracle: every successful output is byte-identical to the first",
          "Generated histories against a byte-equality oracle; shapes, file sources/encodings and op sequences are sampled by rapid. Map-order dependent differences need several renders to show, so every history renders at least 4 times.",
